@@ -21,7 +21,7 @@ HIST = hprop.HistoryProperty(
     profile=profile(nv=(2, 6), n_requests=(0, 25), socs=[0.002, 0.02, 0.3, 0.8, 0.97], nets=["hav", "gen", "gen", "denver", "denver"]),
     nontrivial=lambda f: "moved" in f,
     rule="", assumptions=[],
-    quick=(8, 60, 40), thorough=(8, 1500, 70),
+    quick=(8, 60, 40), thorough=(8, 800, 60),
     instr_bias={"kinds": [1, 1, 2, 2, 5, 5, 8, 8, 8, 0, 3, 6]},
 )
 RULE = ("(a) component: journeys on routes returned by route() between generated positions (link starts/ends/interiors, snapped cells) on "
@@ -185,7 +185,7 @@ def shard(tier, seed, idx) -> ShardResult:
     if idx < 8:
         res = ShardResult()
         comp.run(PROP, st_case(), check_case, lambda f: "nontrivial_journey" in f, res,
-                 cases=250 if tier == "quick" else 12000, seed=seed * 1000 + idx, kind="component")
+                 cases=250 if tier == "quick" else 6000, seed=seed * 1000 + idx, kind="component")
         return res
     return hprop.shard(HIST, tier, seed, idx)
 
